@@ -48,8 +48,8 @@ def cases(tier, seed):
     for i, perm in enumerate(itertools.permutations(range(3))):
         for extra in ("none", "prepend", "append"):
             yield {"kind": "order", "perm": list(perm), "extra": extra, "idx": i}
-    for i in range(6 if tier == "quick" else 40):
-        yield {"kind": "override", "idx": i, "seed": seed}
+    for i in range(256):  # which options the configuration has x which options are given explicitly
+        yield {"kind": "override", "idx": i, "seed": seed, "cfg_mask": i >> 4, "arg_mask": i & 15}
     dumps = [c for c in combos if c["form"] in ("cluster", "repo_json")]
     for i, c in enumerate(dumps if tier == "thorough" else dumps[:40]):
         yield dict(c, kind="dump", idx=i)
@@ -316,22 +316,31 @@ def run_override(case, out, fail, sc):
     from twosigma.memento.storage_filesystem import FilesystemStorageBackend
 
     audit = audit_for([sc.root])
-    rng = core.rng_for(case["seed"], ID, "ovr", case["idx"])
     A, B = sc.path("A"), sc.path("B")
-    cfg = {"type": "filesystem", "path": os.path.join(A, "data"), "metadata_path": os.path.join(A, "meta"),
-           "readonly": rng.random() < 0.5, "memory_cache_mb": 1}
-    over = {"path": os.path.join(B, "data"), "metadata_path": os.path.join(B, "meta"),
-            "read_only": not cfg["readonly"], "memory_cache_mb": 4 * env.KIB}
-    chosen = {k: v for k, v in over.items() if rng.random() < 0.7} or {"path": over["path"]}
+    full_cfg = {"path": os.path.join(A, "data"), "metadata_path": os.path.join(A, "meta"), "readonly": True,
+                "memory_cache_mb": 1}
+    full_arg = {"path": os.path.join(B, "data"), "metadata_path": os.path.join(B, "meta"), "read_only": False,
+                "memory_cache_mb": 4 * env.KIB}
+    names = [("path", "path"), ("metadata_path", "metadata_path"), ("readonly", "read_only"), ("memory_cache_mb", "memory_cache_mb")]
+    cfg = {"type": "filesystem"}
+    chosen = {}
+    for bit, (ck, ak) in enumerate(names):
+        if case["cfg_mask"] >> bit & 1:
+            cfg[ck] = full_cfg[ck]
+        if case["arg_mask"] >> bit & 1:
+            chosen[ak] = full_arg[ak]
+    if "path" not in cfg and "path" not in chosen:
+        chosen["path"] = full_arg["path"]  # never fall back to the home directory
     st = FilesystemStorageBackend(config=dict(cfg), **chosen)
-    eff = {"stype": "filesystem", "meta": True, "cache": "4KiB" if "memory_cache_mb" in chosen else "1MiB",
-           "ro": chosen.get("read_only", cfg["readonly"])}
-    data_dir = chosen.get("path", cfg["path"])
-    meta_dir = chosen.get("metadata_path", cfg["metadata_path"])
-    ref = FilesystemStorageBackend(path=sc.path("R", "data"), metadata_path=sc.path("R", "meta"),
+    data_dir = chosen.get("path", cfg.get("path"))
+    meta_dir = chosen.get("metadata_path", cfg.get("metadata_path", data_dir))
+    cache = "4KiB" if "memory_cache_mb" in chosen else ("1MiB" if "memory_cache_mb" in cfg else None)
+    eff = {"stype": "filesystem", "meta": meta_dir != data_dir, "cache": cache,
+           "ro": chosen.get("read_only", cfg.get("readonly"))}
+    ref = FilesystemStorageBackend(path=sc.path("R", "data"), metadata_path=sc.path("R", "meta") if eff["meta"] else None,
                                    memory_cache_mb=CACHES[eff["cache"]], read_only=eff["ro"])
     want = behaviour(ref, [sc.path("R", "data"), sc.path("R", "meta")], 0, audit)
-    got = behaviour(st, [data_dir, meta_dir], 0, audit)
+    got = behaviour(st, [data_dir, meta_dir if meta_dir != data_dir else data_dir + "-no-separate-metadata"], 0, audit)
     out["obs"]["override_vectors_compared"] += 1
     for k, (w, g) in diff_vec(want, got).items():
         fail("an explicit constructor argument does not override the configuration: " + SIG.get(k, k),
@@ -370,5 +379,5 @@ def run_case(case):
 
 def conclude(agg):
     return core.first(core.need(agg, "vectors_compared", 150), core.need(agg, "dump_vectors_compared", 30),
-                      core.need(agg, "resolutions_checked", 100), core.need(agg, "override_vectors_compared", 6),
+                      core.need(agg, "resolutions_checked", 100), core.need(agg, "override_vectors_compared", 200),
                       core.need(agg, "runner_behaviours_checked", 100)), {"exhaustive": True}
